@@ -117,11 +117,11 @@ func (self *Core) runInstruction(instruction compiler.Instruction) *value.VmInte
 				return i
 			}
 
-			// TODO: do we need to handle `nil` values?
-			// TODO: this is bad: fix it
-			if res != nil && (*res).Kind() != value.NullValueKind {
-				self.push(res)
+			// Every call expression leaves exactly one value on the stack: `null` if there is no result.
+			if res == nil {
+				res = value.NewValueNull()
 			}
+			self.push(res)
 		default:
 			panic(fmt.Sprintf("Values of kind %s cannot be called", function.Kind()))
 		}
